@@ -28,10 +28,8 @@ def inputs(chk):
         fn = rng.choice(sorted(files))
         files[fn] = corpus.mutate_tokens(rng, files[fn], 1)
         jobs.append(("tok1:" + name, files))
-    import os
-    d = os.path.join(os.path.dirname(os.path.abspath(__file__)), "..", "c06_inputs")
-    for f in sorted(os.listdir(d)):
-        jobs.append(("regress:" + f, {"main.capy": open(os.path.join(d, f)).read()}))
+    from props import c06
+    jobs += c06.regress_inputs()
     return jobs
 
 
